@@ -321,4 +321,18 @@ FreeDisjoint == /\ \A a, b \in 1..Len(free) : a # b => free[a] # free[b]
 FreeAreZero == \A f \in 1..Len(free) : RIsZero(P1(sim, free[f])) /\ ~evMeas[free[f]] /\ last[free[f]] = -1
 \* every tracked record is a bit string of the right width or "?"
 NoOpOnMeasured == TRUE
+
+(* ---------------- end-of-run report of unmeasured qubits (RuntimeEvaluator::warnUnmeasured) ---------------- *)
+\* A run that ends without a runtime error reports, in simulator-index order, every qubit that still carries a
+\* name and whose evaluator-side measured flag is unset. A variable's qubits carry the variable's name and are never
+\* released (so they keep it after their scope closed, and a recycled index takes the name of its new owner); the
+\* qubits of an object's fields lose their name when the object releases them, and every object is gone when main's
+\* scope has closed. The report is therefore a second, public observer of evMeas (next to the refusals of C06).
+PlainOwner(q) == {i \in 1..Len(vars) : vars[i].k # "obj" /\ \E e \in 1..Len(vars[i].idx) : vars[i].idx[e] = q}
+Unreported    == {q \in Qubits(sim) : PlainOwner(q) # {} /\ ~evMeas[q]}
+Warned == IF ~done \/ halted # 0 THEN <<>>
+          ELSE LET us == SeqOfSet(Unreported) IN [j \in 1..Len(us) |-> CHOOSE i \in PlainOwner(us[j]) : TRUE]
+\* design-level: a qubit is named by at most one variable, and nothing that is free is reported
+OneNamer   == \A q \in Qubits(sim) : \A i, j \in PlainOwner(q) : i = j
+FreeUnnamed == \A f \in 1..Len(free) : PlainOwner(free[f]) = {}
 =============================================================================
